@@ -48,6 +48,10 @@ CHECKS = {
    text="Index-bookkeeping helpers (_KeepsFeAxes, dot/ddot subscripts, broadcast decision table) are decided exhaustively on their finite domains. The operators are the real FeArray methods: on the fully colliding shape Ne=nPg=dim=2 with distinct symbolic entries every result entry is a polynomial identity; on the shape grid (all collisions, ranks 0-4, both operand orders, FeArray/ndarray/scalar/Field operands, 24 ufuncs, 11 reducers x all axes, dispatched functions, closed-form Det/Inv/Trace/TensorProd) they are compared with explicit per-(e,p) numpy loops on integer-valued data, including the result-type rule.",
    note="Grid bounded to Ne, nPg, dim <= 3 (10 shapes quick, 27 thorough); integer sample data for the run-time tier (operations do not branch on values); numpy's tensordot/einsum is the per-point oracle.",
    technique="contract-based verification: exhaustive finite-domain contracts + symbolic execution of the real operators on the colliding shape (bounded) + run-time contracts over the shape grid"),
+ "C10": dict(level="other", design="DESIGN.md 3/C10",
+   text="Beam axes: the local-to-global matrix P = [i j ixj] (orthonormal for any orthonormal pair, Cayley-parametrised) and the block matrix applied to global dofs (must be blockdiag(P^T)) are decided symbolically from the extracted source. Continuum elements: the real operators run on exact values give Q K_e Q^T (K_e for scalar problems) under rational rigid motions and reflections. Whole problems are run natively as bounded contracts: cantilevers at generic inclinations (EB/Timoshenko, 2-D/3-D) respond identically in their own axes; elastic/thermal patches rotated, translated and mirrored (isotropic and anisotropic with rotated axes) give the transformed solution and the same energy.",
+   note="B/X tiers bounded to small patches, one motion each, one cantilever; global statement relies on C03/C04 contracts; hyperelastic objectivity and one-step dynamics not covered here.",
+   technique="contract-based verification: symbolic execution of extracted axis code (proved) + exact execution of real operators under rational motions (bounded) + run-time contracts on native solves"),
 }
 NOT_APPLICABLE = {
 }
